@@ -354,6 +354,7 @@ func cmdCheck(args []string) int {
 	}
 	// bounded stand-ins (never counted as discharged obligations)
 	var boundedEv []map[string]interface{}
+	boundTier = *tier
 	for _, b := range scopeBounded[id] {
 		r := runBounded(b)
 		boundedEv = append(boundedEv, map[string]interface{}{"function_under_check": b.Test, "file": "/verif/bounded/" + b.File, "package": b.PkgDir,
@@ -415,6 +416,7 @@ func cmdCheck(args []string) int {
 		"out_of_subset":         oos,
 		"modelling_notes":       notes,
 		"bounded_standins":      boundedEv,
+		"lemma_axioms":          x.lemmaAxiomNames(),
 		"samples":               samples,
 		"extraction_drops":      "text of error/log messages; identity of error values (nil-ness, errors.Is class and wrapped bit are kept); permission bits; timing; GC; stack depth",
 		"explanation":           propExplanation[id],
